@@ -22,10 +22,19 @@ TgUTimesThorough == TgUTimesQuick \cup {<<2740, 260>>, <<9870, 1120>>}
 \* id bodies: one letter; two letters around a space ("spk1 utt1")
 TrnIdCoresQuick == {<<1>>, <<1, 0, 2>>}
 TrnIdCoresThorough == TrnIdCoresQuick \cup {<<2, 0, 0, 1>>}
+\* ctm: units <<base, exponent>> of start / duration for the cases that leave positional notation
+\*   2^-16 s        sample-level alignment (65536 Hz): a 5-sample token lasts 7.62939453125e-05 s, starts 5 -> sci, 120 -> plain
+\*   1/8 s, 2^-48 s a "tick": start on a coarse grid, the end a few last bits later (what accumulating 0.1 + 0.2 against
+\*                  0.3 produces); start + duration is exact in binary floating point for starts below 16 s
+\*   10^-7 s        decimal and tiny: 5e-07, 1.2e-05
+\*   10^16 s        absurdly late: 5e+16, 1.2e+18
+CtmFineUnitsAll == {[s |-> <<2, -16>>, d |-> <<2, -16>>], [s |-> <<2, -3>>, d |-> <<2, -48>>],
+                    [s |-> <<10, -7>>, d |-> <<10, -7>>], [s |-> <<10, 16>>, d |-> <<10, 16>>]}
 \* Deliberately wrong variants (substituted through a cfg: `TguLo <- TguLoFirstListed` ...) that the invariants
 \* of the two families must reject -- otherwise the universes could not tell them from the right ones
 TguLoFirstListed(tr, p) == RoundTo(tr[1].s, p)                                  \* "the tier starts with the first entry listed"
 TguHiLastListed(tr, p) == RoundTo(tr[Len(tr)].s + tr[Len(tr)].d, p)              \* "... and ends with the last one"
+CtmFieldPlainOnly(note) == note = "plain"                                      \* "a time field is digits with at most one point"
 ReadIdStripping(line) ==                                                        \* "the id is stripped like the rest of the line"
   LET t == StripW(line) IN StripW(SubSeq(t, RIndex(t, ChLP) + 1, RIndex(t, ChRP) - 1))
 =============================================================================
